@@ -54,7 +54,7 @@ def plan(tier):
     return [("http", {"mode": "http"}, 60000, 100), ("ws", {"mode": "ws"}, 40000, 100)]
 
 
-PATHS = ["/", "/a", "/a/b", "/ab", "/p", "/a/b/c", "/q"]
+PATHS = ["/", "/a", "/a/b", "/ab", "/p", "/a/b/c", "/q", "/t/", "/a/d/"]     # incl. paths that end in a slash: "/t/" is not "/t"
 KEYS = ["a", "b", "k k", "é", "x&y", "q=1", "n"]
 VALS = ["1", "hello", "é z", "a+b", "100%", "", "a&b=c", "中"]
 # handler bodies: (source after the rec call, raises?)
@@ -155,6 +155,10 @@ def scenario(ch, cfg):
             target = path + ("?" + qs if qs else "")
             return f"GET {target} HTTP/1.1\r\nHost: sim\r\n\r\n".encode()
         body = qs.encode()
+        if ch.draw(4, "postquery") == 0:
+            # a POST may carry a query string as well: the handler's dictionary is the FORM, nothing else
+            stats["probe_post_with_query_string"] += 1
+            path = path + "?token=abc&n=query"
         return (f"POST {path} HTTP/1.1\r\nHost: sim\r\nContent-Type: application/x-www-form-urlencoded\r\n"
                 f"Content-Length: {len(body)}\r\n\r\n").encode() + body
 
@@ -258,7 +262,7 @@ def scenario(ch, cfg):
                 log.append(f"{m} {p} (raising) -> {res}")
             elif kind == "unknown":
                 m = ch.pick(["GET", "POST"], "um")
-                p = ch.pick(["/nope", "/a/zz", "/ab/c", "/A"], "up")
+                p = ch.pick(["/nope", "/a/zz", "/ab/c", "/A", "/t", "/a/d", "/a/", "/p/"], "up")
                 if p in routes[m]:
                     continue
                 res, _ = await request(build(m, p, gen_params()))
@@ -406,7 +410,8 @@ def scenario(ch, cfg):
 
 # --------------------------------------------------------------------------- websocket
 JSON_VALUES = [1, 0, -7, 2.5, 0.0, "s", "", "é x", True, False, None, [], [1, 2, 3], [1.5, 2.5], ["a", "b"], [3, 4.5, "x"], [[1, 2], [3, 4]],
-               [1, [2, "y"]], {"a": 1}, {"k": [1, 2], "s": "v"}, {}]
+               [1, [2, "y"]], {"a": 1}, {"k": [1, 2], "s": "v"}, {},
+               "L" * 70000, list(range(30000))]      # two messages well above 64 KiB (a 70 kB text, a ~170 kB list)
 SEND_LITS = [("[1 2 3]", [1, 2, 3]), ('"hi"', "hi"), (':{["a" 1]}', {"a": 1}), ("42", 42), ("2.5", 2.5), ('["x" "y"]', ["x", "y"]),
              ("[[1 2] [3 4]]", [[1, 2], [3, 4]]), ('""', ""), ("1+1", 2), ("-7", -7), ("[5 6]@1", 6), ("2*3.5", 7.0),     # incl. computed numbers
              (":{[1 2]}", {"1": 2}), (":{},(1+1),5", {"2": 5})]     # numeric dictionary keys (JSON object keys are their text), literal and computed
